@@ -37,7 +37,16 @@ CONDS = {
     "A > B": lambda t: int(_val(t, "A") > _val(t, "B")),
     "!defined(B) || A": lambda t: 1 if "B" not in t else int(_val(t, "A") != 0),
     "A + B == 2": lambda t: int(_val(t, "A") + _val(t, "B") == 2),
+    # these stay valid when A is defined empty (unary + / -): "-DA=" must not behave like "-DA"
+    "A + 0": lambda t: _val0(t, "A"),
+    "A - 1": lambda t: _val0(t, "A") - 1,
 }
+
+
+def _val0(t, m):
+    if m not in t or t[m].strip() == "":
+        return 0
+    return int(t[m], 0)
 # NB: in `!defined(B) || A` gcc still *parses* A when the left side is true: an empty A is a syntax error.
 _NEEDS_A_SYNTAX = {"!defined(B) || A"}
 
